@@ -277,6 +277,12 @@ class Driver(object):
 
 
 def run_history(ck, sftpd, maker, orig, steps):
+    with ck.watchdog(120, "history"):
+        return run_history_(ck, sftpd, maker, orig, steps)
+    return None, []                        # watchdog fired: inconclusive, nothing judged
+
+
+def run_history_(ck, sftpd, maker, orig, steps):
     env.evq.reset()
     drv = Driver(ck, sftpd, maker, orig)
     try:
@@ -480,6 +486,8 @@ def run(ck):
     makers = [("plain", tempfile.TemporaryFile), ("encrypted", EncryptedTemporaryFile)]
 
     def judge(drv, problems, cls, key, steps, orig, makername, nontrivial):
+        if drv is None:
+            return
         for k, what in problems:
             ck.violation(k, what, {"factory": makername, "original": orig[:64], "original_len": len(orig),
                                    "steps": show_steps(steps)[:60], "executed": drv.trace[:80]})
@@ -491,14 +499,13 @@ def run(ck):
     total = 0
     complete = True
     stride = 37 if ck.tier == "quick" else 1
-    t_enum_end = ck.time_left() * (0.3 if ck.tier == "quick" else 0.2)   # guard only
     for idx, (w1, w2, split, p1, p2) in enumerate(enum_cases(limit)):
         total += 1
         if not ck.mine(idx):
             continue
         if stride > 1 and (idx + ck.seed) % stride and not (split == 12 and p2 == 0):
             continue
-        if ck.time_left() < t_enum_end:
+        if not ck.more(min_cases=10 ** 9):     # fixed list: only 4x the budget stops it (loaded machine)
             complete = False
             break
         steps = enum_steps(w1, w2, split, p1, p2)
@@ -514,9 +521,8 @@ def run(ck):
         if w2[0] == w1[1] or w1[0] == w2[1]:
             ck.hit("adjacent-overwrites")
         judge(drv, problems, "enum-pairs", (mk[0], w1, w2, split, p1, p2), steps, ORIG12, mk[0], before)
-    ck.extra["enumeration_space"] = total
-    ck.extra["enumeration_complete"] = bool(complete and stride == 1)
-    ck.extra["enumeration_bounds"] = {"file": 12, "overwrite_limit": limit, "chunks": 2, "placements": 6}
+    ck.extra["enumeration"] = {"space": total, "stride": stride, "complete_in_this_shard": bool(complete and stride == 1),
+                               "bounds": {"file": 12, "overwrite_limit": limit, "chunks": 2, "placements": 6}}
     if ck.tier == "thorough":
         ck.exhaustive = bool(complete)
 
@@ -524,7 +530,8 @@ def run(ck):
     rng = ck.rng("c39-histories")
     n = 18000 if ck.tier == "quick" else 60000      # fixed counts: deterministic per seed
     i = 0
-    while i < n and not ck.out_of_time():
+    target = ck.evaluations + n
+    while i < n and ck.more(min_cases=target):
         i += 1
         orig, steps = gen_history(rng)
         mk = makers[i % 2]
@@ -542,9 +549,17 @@ def run(ck):
                      "set-current-size", "done-before-last-chunk")
 
 
-# MUST_CATCH (self-test on scratch copies, see final report / selftest):
-#  1. sftpd.py write(): merge loop `end = end1` (unchanged tree)            -> nested-overwrite-merge-shrinks
-#  2. write(): drop the overwritten-region skip (always write whole chunk)  -> download-clobbers-client-write
-#  3. set_current_size(): do not lower download_size on truncation          -> caught (length/contents)
-#  4. overwrite(): `if end > self.downloaded` -> `if start > self.downloaded` (straddling write not recorded)
-#  5. read(): needed = min(offset, download_size) (read does not wait for the data)
+# MUST_CATCH  (selftest/breaks_c39.py; run on a base = /repo/src + the two proposed fixes, quick tier)
+#  unchanged tree: merge loop `end = end1`                      -> nested-overwrite-merge-shrinks            CAUGHT
+#  unchanged tree: heap entries (offset, Deferred) compare       -> concurrent-reads-same-milestone-typeerror CAUGHT
+#  c39-no-skip-of-overwritten-regions                            -> download-clobbers-client-write            CAUGHT
+#  c39-truncate-keeps-download-size                              -> upload-time-length-differs                CAUGHT
+#  c39-straddling-overwrite-not-recorded                         -> download-clobbers-client-write            CAUGHT
+#  c39-read-does-not-wait                                        -> read-differs-from-reference               CAUGHT
+#  c39-no-zero-fill-beyond-eof (EncryptedTemporaryFile only)     -> read-/upload-time-differs-from-reference  CAUGHT
+#  c39-prefix-before-overwrite-dropped                           -> read-differs-from-reference               CAUGHT
+#  c39-chunk-not-clipped-to-download-size                        -> upload-time-length-differs                CAUGHT
+#  c39-milestone-jumps-over-gap                                  -> read-differs-from-reference               CAUGHT
+#  no download_done("size changed") in set_current_size          -> MISSED: not observable under the class contract
+#        (the file handle calls download_done itself when the download Deferred fires)
+#  extension zeros not recorded as an overwrite                  -> MISSED: equivalent (always beyond download_size)
